@@ -278,6 +278,9 @@ pub fn run_world_check(c: WorldCheck, tier: Tier, seed: u64) -> i32 {
             s.enumerate("enumerate-delayed-rpcs", "world", all, &case);
         }
     }
+    if matches!(c.prop, "C02" | "C05" | "C07" | "C11") {
+        crate::props::par::par_phase(&mut s, c.prop);
+    }
     if tier == Tier::Thorough {
         if let Some(tp) = c.thorough_profile.clone() {
             s.search("world-thorough-profile", "world", c.cases_thorough / 2, move || scenario_strategy(tp.clone()), &case);
